@@ -14,10 +14,13 @@ EXTERNAL = {
     "builtins.int": ("builtins.ValueError",),  # int("x"), int("07", 0)
     "builtins.chr": ("builtins.ValueError", "builtins.OverflowError"),  # chr(0x110000), chr(10**30)
     "decimal.Decimal": ("decimal.InvalidOperation",),  # Decimal("x")
-    "re.compile": ("re.error", "builtins.OverflowError"),  # RegEx / Pattern rules; a{99999999999}: "the repetition number is too large"
+    # (?a)(?u)x: "ASCII and UNICODE flags are incompatible" is a ValueError
+    "re.compile": ("re.error", "builtins.OverflowError", "builtins.ValueError"),  # RegEx / Pattern rules; a{99999999999}: "the repetition number is too large"
     # the Python tokenizer, consumed eagerly by _tools.generated_tokens: unterminated strings, stray brackets and
     # backslashes give TokenError; inconsistent indentation in multi-line cells gives IndentationError/TabError
-    "tokenize.generate_tokens": ("tokenize.TokenError", "builtins.SyntaxError"),
+    # CPython 3.12: a carriage return directly followed by a non-ASCII character makes the tokenizer decode half a
+    # character: UnicodeDecodeError
+    "tokenize.generate_tokens": ("tokenize.TokenError", "builtins.SyntaxError", "builtins.UnicodeDecodeError"),
     # encoding property: unknown name -> LookupError; a name with an embedded NUL or a lone surrogate -> ValueError
     "codecs.lookup": ("builtins.LookupError", "builtins.ValueError"),
     # DateTime cells; a format with the same directive twice (rule DD.DD) makes _strptime compile a regex with a
